@@ -40,7 +40,11 @@ RULE = ("(histories: several records through ONE long-lived serialize=True handl
         "reuse thread / process ids and file paths with other names; catch histories: 3-6 calls on one serialize=True handler "
         "created with catch=True or catch=False, ~40 % of the records unserialisable (never lost silently: sink messages, the "
         "exception reaching the caller and the stderr reports are counted); sink cases: 6-10 calls into a serialize=True FILE sink "
-        "(half enqueue=True), the file read back line by line")
+        "(half enqueue=True), the file read back line by line; threads cases: 4 threads x 60 calls through one handler with a "
+        "1 us switch interval; big cases: messages of up to 70 000 characters; multi cases: ONE call dispatched to 2-3 "
+        "serialize=True handlers (static and dynamic format) whose filters / format functions / sinks edit the SHARED record "
+        "(extra set / deleted, message, function): each handler's line is judged against a snapshot of the record taken when "
+        "ITS sink received it; non-trivial = a later handler after an edit")
 TRUSTED = [
     "Py/JsonStr.lean + Json.dumps/toJson are a model of CPython's json encoder (modelled, not verified): tied by the "
     "streams esc/dec/dumps/loads against json.dumps/json.loads on every run",
@@ -183,8 +187,20 @@ def canon_err(e):
     return "Other" if k.startswith("Other") else k
 
 
+_WIRE_LAST = [None, None]
+
+
 def wire_record(record):
-    """wire tokens of the record as `_serialize_record` reads it (FIELDS order) + the str() table"""
+    """wire tokens of the record as `_serialize_record` reads it (FIELDS order) + the str() table.
+    (The last result is kept for the same record OBJECT: a record is judged several times once the call is over.)"""
+    if _WIRE_LAST[0] is record:
+        return _WIRE_LAST[1]
+    res = _wire_record(record)
+    _WIRE_LAST[0], _WIRE_LAST[1] = record, res
+    return res
+
+
+def _wire_record(record):
     table, out = [], []
     exc = record["exception"]
     for f in FIELDS:
@@ -1026,6 +1042,175 @@ def check_catch_history(ctx, h, lines, expected):
     run_catch_history(h, on_record)
 
 
+# ----------------------------------------------------------------------------- several serialising handlers, one shared record
+class Snap(str):
+    """the formatted text a handler must have produced + the record AS THAT HANDLER saw it (stands for the twin's Message)"""
+    record = None
+
+
+def snapshot(record):
+    """the record at the moment a sink receives it: plain containers are copied (later handlers' filters, format
+    functions and sinks edit the SHARED record), objects stay by reference"""
+    def cp(v):
+        if type(v) is dict:
+            return {k: cp(x) for k, x in v.items()}
+        if type(v) is list:
+            return [cp(x) for x in v]
+        if type(v) is tuple:
+            return tuple(cp(x) for x in v)
+        return v
+    return {k: cp(v) for k, v in record.items()}
+
+
+def apply_edit(edit, record):
+    if edit is None:
+        return
+    if edit[0] == "set":
+        record["extra"][edit[1]] = edit[2]
+    elif edit[0] == "del":
+        record["extra"].pop(edit[1], None)
+    elif edit[0] == "message":
+        record["message"] = edit[1]
+    elif edit[0] == "function":
+        record["function"] = edit[1]
+
+
+_MULTI = {"active": None, "specs": None, "outs": None}
+_MULTI_DONE = set()
+MULTI_DYNAMIC = [False, True, False]          # handler 1 and 3 have a static format, handler 2 a format FUNCTION
+
+
+def multi_handlers(logger, fmt):
+    """three serialize=True handlers per format, installed once; what their filter / format function / sink do to the
+    shared record is looked up in _MULTI at call time"""
+    if fmt in _MULTI_DONE:
+        return
+    for i in range(3):
+        def flt(record, i=i):
+            if _MULTI["active"] != fmt or i >= len(_MULTI["specs"]):
+                return False
+            apply_edit(_MULTI["specs"][i]["filter"], record)
+            return True
+
+        def fmtfn(record, i=i):
+            apply_edit(_MULTI["specs"][i]["format_fn"], record)
+            return fmt + "\n{exception}"
+
+        def sink(m, i=i):
+            _MULTI["outs"][i].append((m, snapshot(m.record)))
+            apply_edit(_MULTI["specs"][i]["sink"], m.record)
+        logger.add(sink, format=(fmtfn if MULTI_DYNAMIC[i] else fmt), serialize=True, catch=False, level=0, backtrace=False,
+                   diagnose=False, filter=flt)
+    _MULTI_DONE.add(fmt)
+
+
+def gen_edit(rng, stats, c, tag):
+    k = rng.below(10)
+    if k < 4:
+        return None
+    if k < 7:
+        return ("set", rng.choice([tag, "route", "k", gen_key(rng)]), gen_value(rng, stats))
+    if k == 7:
+        keys = list(c["bind"]) + list(c["ctx"]) + ["route", "k"]
+        return ("del", rng.choice(keys))
+    if k == 8:
+        return ("message", gen_text(rng, 10))
+    return ("function", gen_text(rng, 5))
+
+
+def gen_multi_case(seed):
+    """ONE logging call dispatched to two or three serialize=True handlers that SHARE the record; the filter, the dynamic
+    format function and the sink of each handler may edit it (extra set / deleted, message, function) – so each handler sees
+    another state of the same dict object"""
+    rng = core.Rng(seed)
+    c = gen_case(rng.next())
+    c["exc"] = None
+    c["format"] = rng.choice([f for f in FORMATS if f[0]])
+    stats = lambda name: c["hist"].__setitem__(name, c["hist"].get(name, 0) + 1)  # noqa: E731
+    c["specs"] = []
+    for i in range(rng.choice([2, 3, 3])):
+        c["specs"].append({"filter": gen_edit(rng, stats, c, "f%d" % i),
+                           "format_fn": gen_edit(rng, stats, c, "d%d" % i) if MULTI_DYNAMIC[i] else None,
+                           "sink": gen_edit(rng, stats, c, "s%d" % i)})
+    return c
+
+
+def run_multi_case(c):
+    """returns (per-handler results in the shape the oracle takes, the exception that reached the caller)"""
+    logger = the_logger()
+    fmt, plain = c["format"]
+    multi_handlers(logger, fmt)
+    _MULTI.update(active=fmt, specs=c["specs"], outs=[[] for _ in c["specs"]])
+    try:
+        res0 = run_impl(c, pair=("<multi>", [], []))
+    finally:
+        _MULTI["active"] = None
+    results = []
+    for i, got in enumerate(_MULTI["outs"]):
+        for m, snap in got:
+            try:
+                text = plain.format_map(dict(snap, exception="")) + "\n"
+            except Exception:  # noqa  (str(extra) of a value whose __repr__ … – not this property's business)
+                continue
+            tw = Snap(text)
+            tw.record = snap
+            results.append((i, {"out": [m], "twin": [tw], "err": None}))
+    return results, res0["err"]
+
+
+def check_multi_case(ctx, seed, lines, pending):
+    c = gen_multi_case(seed)
+    results, err = run_multi_case(c)
+    ctx.stat("multi:handlers-reached:%d-of-%d" % (len(results), len(c["specs"])))
+    for i, res in results:
+        rep = {"stream": "multi", "case_seed": seed, "handler": i}
+        record = res["twin"][0].record
+        if outside_reason(record) is not None:
+            ctx.stat("outside_quantifier:" + outside_reason(record))
+            continue
+        edited = any(sp[k] is not None for sp in c["specs"][:i + 1] for k in ("filter", "format_fn")) or \
+            any(sp["sink"] is not None for sp in c["specs"][:i])
+        ctx.case(("multi", seed, i), nontrivial=edited and i > 0)
+        ctx.stat("stream:multi")
+        seen = set()
+        for what, k in oracle(c, res):
+            if k in seen:
+                continue
+            seen.add(k)
+            ctx.violation(what + "  [multi-handler case seed %d: handler %d of %d serialize=True handlers sharing the record; "
+                          "edits so far: %r]" % (seed, i + 1, len(c["specs"]), [sp for sp in c["specs"][:i + 1]]),
+                          dict(rep, expected="property C14", observed=what), key=k)
+            if k is None:
+                break
+        try:
+            line = model_line(res)
+        except Outside:
+            continue
+        ci = dict(c)
+        ci["_other_key"] = record_has_other_key(record)
+        lines.append(line)
+        pending.append((rep, impl_result(res), ci))
+
+
+def replay_multi(r):
+    c = gen_multi_case(r["case_seed"])
+    print("multi-handler case seed %d: log(%r, %r) bind=%r, format %r" % (r["case_seed"], c["level"], c["message"][:30], c["bind"], c["format"][0]))
+    for i, sp in enumerate(c["specs"]):
+        print("  handler %d (%s format): filter %r, format function %r, sink %r"
+              % (i + 1, "dynamic" if MULTI_DYNAMIC[i] else "static", sp["filter"], sp["format_fn"], sp["sink"]))
+    results, err = run_multi_case(c)
+    found = []
+    for i, res in results:
+        probs = oracle(c, res)
+        print("  handler %d got %s" % (i + 1, repr(str(res["out"][0]))[:300]))
+        print("           the record as it saw it: extra=%r message=%r" % (res["twin"][0].record["extra"], res["twin"][0].record["message"]))
+        for what, _ in probs:
+            print("           ORACLE: " + what)
+            found.append(what)
+    print("REPRODUCED" if found else "not reproduced")
+    return 1 if found else 0
+
+
 # ----------------------------------------------------------------------------- big records
 def gen_big_case(seed):
     """one record whose message / extra are LARGE (a size-dependent truncation, chunking or buffer reuse would show)"""
@@ -1510,6 +1695,16 @@ WITNESSES = [
 WITNESS_OUTSIDE = {"message": "tuple key", "extra": {"d": {"e": {(1, 2): "x"}}}}
 
 
+def colour_case(seed):
+    """a case of the colour stream: markup format on a tty-like stream sink; every other case keeps its exception, so that
+    the text of a traceback is judged too (the exception formatter has a colorize flag of its own)"""
+    c = gen_case(seed)
+    c["format"] = ("<red>{message}</red>|<b>{level.name}</b>", "{message}|{level.name}")
+    if seed % 2 or (c["exc"] and len(c["exc"]) > 1 and c["exc"][1] == "BadStrExc"):
+        c["exc"] = None
+    return c
+
+
 class TtyStream:
     """a stream sink that claims to be a terminal"""
 
@@ -1595,6 +1790,11 @@ def run(ctx):
     for i in range(int(ctx.n(70, 600) * boost)):
         check_catch_history(ctx, gen_catch_history(rng.next()), catch_lines, catch_exp)
 
+    # ---- stream 1g: ONE call dispatched to several serialize=True handlers whose filters / format functions / sinks edit
+    #      the shared record: each handler's line is judged against the record as THAT handler saw it
+    for i in range(int(ctx.n(120, 3000) * boost)):
+        check_multi_case(ctx, rng.next(), lines, pending)
+
     # ---- stream 1e: LARGE records (not sent to `loads`; the model line is kept for the smaller ones only)
     for i in range(ctx.n(4, 40)):
         seed = rng.next()
@@ -1628,9 +1828,7 @@ def run(ctx):
     col_lines, col_exp = [], []
     for i in range(ctx.n(60, 600)):
         seed = rng.next()
-        c = gen_case(seed)
-        c["format"] = ("<red>{message}</red>|<b>{level.name}</b>", "{message}|{level.name}")
-        c["exc"] = None
+        c = colour_case(seed)
         for colorize in (None, False, True):
             res = run_impl(c, colorize=colorize, sink_factory=TtyStream)
             rep = {"stream": "colour", "case_seed": seed, "colorize": colorize}
@@ -1714,9 +1912,9 @@ def run(ctx):
             sem_exp.append(("json.loads(%r)" % e, exp))
 
     # ---- model `loads` on the real handler outputs: must parse and re-dump to the identical text (same driver run)
-    cand = ["loads " + enc(dec(impl[3:])[:-1]) for (_, impl, _) in pending
-            if impl.startswith("ok ") and len(impl) < 40000 and dec(impl[3:]).endswith("\n")]
-    sel = cand[::max(1, len(cand) // ctx.n(300, 5000))] if cand else []
+    okays = [impl for (_, impl, _) in pending if impl.startswith("ok ") and len(impl) < 40000]
+    okays = okays[::max(1, len(okays) // ctx.n(300, 5000))] if okays else []
+    sel = ["loads " + enc(dec(impl[3:])[:-1]) for impl in okays if dec(impl[3:]).endswith("\n")]
 
     # ---- run the model
     out = drv.run(lines + col_lines + sem_lines + sel + catch_lines)
@@ -1752,8 +1950,6 @@ def run(ctx):
             ctx.violation("implementation and model disagree on the serialised line: impl %s, model %s  [message=%r]"
                           % (show(impl)[:200], show(m)[:200], c["message"][:60]),
                           dict(rep, expected=show(m), observed=show(impl)), kind="correspondence")
-        elif impl.startswith("ok ") and dec(impl[3:]).endswith("\n"):
-            loads_lines.append("loads " + enc(dec(impl[3:])[:-1]))
     for (rep, exp), m in zip(col_exp, o2):
         ctx.evaluations += 1
         if m != exp:
@@ -1860,6 +2056,8 @@ def replay(ctx, rep):
         return replay_catch(r)
     if stream == "sink":
         return replay_sink(r)
+    if stream == "multi":
+        return replay_multi(r)
     if stream == "threads":
         probs = []
         for attempt in range(1, 41):          # a race between threads: the same plan is run until it shows (at most 40 times)
@@ -1889,8 +2087,7 @@ def replay(ctx, rep):
         return 2
     kw = {}
     if stream == "colour":
-        c["format"] = ("<red>{message}</red>|<b>{level.name}</b>", "{message}|{level.name}")
-        c["exc"] = None
+        c = colour_case(r["case_seed"])
         kw = {"colorize": r["colorize"], "sink_factory": TtyStream}
     res = run_impl(c, **kw)
     print("message   : %r" % c["message"])
